@@ -15,9 +15,19 @@ import re as _re
 from dataclasses import dataclass, field
 from typing import Any, Callable, Dict, List, Optional
 
+import numpy as _np
 import sympy as sp
 
 from .index import norm
+
+
+def _natural_sorted(x):
+    """sorted() as Python defines it; values that Python cannot order (mixed types, folded records) fall back to a deterministic order by repr"""
+    x = list(x)
+    try:
+        return sorted(x)
+    except TypeError:
+        return sorted(x, key=repr)
 
 
 class Undecidable(Exception):
@@ -236,6 +246,18 @@ class Folder:
                 cur[:] = cur * v
                 self.assign(s.target, cur)
                 return
+            if isinstance(cur, set) and isinstance(v, (set, frozenset)) and isinstance(s.op, (ast.Sub, ast.BitOr, ast.BitAnd, ast.BitXor)):
+                # set -= / |= / &= / ^= change the same object (visible through every alias), as in Python
+                if isinstance(s.op, ast.Sub):
+                    cur.difference_update(v)
+                elif isinstance(s.op, ast.BitOr):
+                    cur.update(v)
+                elif isinstance(s.op, ast.BitAnd):
+                    cur.intersection_update(v)
+                else:
+                    cur.symmetric_difference_update(v)
+                self.assign(s.target, cur)
+                return
             names = self._DUNDER.get(type(s.op))
             if names:
                 im = self._rec_method(cur, "__i" + names[0][2:])
@@ -261,6 +283,8 @@ class Folder:
             if not isinstance(it, (list, tuple, str, range)):
                 raise Undecidable(f"loop over {norm(s.iter)}")
             broke = False
+            if isinstance(it, Opaque):
+                raise Undecidable(f"iteration over {it!r}")
             for x in list(it):
                 self.assign(s.target, x)
                 try:
@@ -350,6 +374,10 @@ class Folder:
                 self.block(s.orelse)
             self.block(s.finalbody)
             return
+        if isinstance(s, ast.Assert):
+            if not self.truth(self.expr(s.test), s.test):
+                raise Raised("AssertionError", s)
+            return
         raise Undecidable(f"statement {type(s).__name__} at line {s.lineno}")
 
     def assign(self, t, v):
@@ -369,6 +397,18 @@ class Folder:
                 k = self.expr(t.slice)
             if isinstance(cont, (dict, list)) or getattr(cont, "_sa_model", False) and hasattr(cont, "__setitem__"):
                 cont[k] = list(v) if isinstance(cont, list) and isinstance(k, slice) else v
+            elif isinstance(cont, _np.ndarray):
+                import warnings as _w
+                if isinstance(v, sp.Basic):
+                    if v.free_symbols:
+                        raise Undecidable(f"symbolic value stored into the array {norm(t.value)}")
+                    v = complex(v) if not v.is_real else float(v)
+                with _w.catch_warnings():
+                    _w.simplefilter("ignore")            # numpy's casting (e.g. complex stored into a real array keeps the real part) is what the program does
+                    try:
+                        cont[k] = v
+                    except (TypeError, ValueError, IndexError) as ex:
+                        raise Raised(type(ex).__name__, t)
             else:
                 raise Undecidable(f"store into {norm(t.value)}")
         elif isinstance(t, ast.Attribute):
@@ -401,6 +441,8 @@ class Folder:
             raise Undecidable(f"truth of symbolic {v} in {norm(node)}")
         if isinstance(v, (Rec, Opaque)):
             return True
+        if isinstance(v, (_np.generic, complex)):
+            return bool(v)                              # a concrete numpy / complex scalar
         raise Undecidable(f"truth of {v!r} in {norm(node)}")
 
     def expr(self, e) -> Any:
@@ -454,13 +496,15 @@ class Folder:
                 return sp.re(base) if e.attr == "real" else sp.im(base)
             if isinstance(base, (sp.MatrixBase,)) and e.attr in ("T", "H", "shape", "rows", "cols"):
                 return getattr(base, e.attr)
+            if isinstance(base, (_np.ndarray, _np.generic)) and e.attr in ("shape", "T", "real", "imag", "size", "ndim"):
+                return getattr(base, e.attr)          # concrete numpy value (allocated by the folded code with literal extents)
             if isinstance(base, sp.Basic) and e.attr in ("is_zero", "is_real", "is_number"):
                 return getattr(base, e.attr)
             if getattr(base, "_sa_model", False) and hasattr(base, e.attr) and not callable(getattr(base, e.attr)):
                 return getattr(base, e.attr)          # data attribute of a checker-side model object
             raise Undecidable(f"attribute {txt}")
         if isinstance(e, (ast.Set,)):
-            return frozenset(self.expr(x) for x in e.elts)
+            return set(self.expr(x) for x in e.elts)              # a set display is a new mutable set
         if isinstance(e, ast.List):
             return [self.expr(x) for x in e.elts]
         if isinstance(e, ast.Tuple):
@@ -511,7 +555,11 @@ class Folder:
                 hi = self.expr(e.slice.upper) if e.slice.upper else None
                 st = self.expr(e.slice.step) if e.slice.step else None
                 return base[lo:hi:st]
-            k = self.expr(e.slice)
+            if isinstance(e.slice, ast.Tuple) and any(isinstance(x, ast.Slice) for x in e.slice.elts):
+                k = tuple(slice(*(self.expr(y) if y is not None else None for y in (x.lower, x.upper, x.step))) if isinstance(x, ast.Slice) else self.expr(x)
+                          for x in e.slice.elts)
+            else:
+                k = self.expr(e.slice)
             if isinstance(base, Opaque):
                 return Opaque(f"{base.text}[{k!r}]")
             try:
@@ -557,6 +605,8 @@ class Folder:
                 it = list(it.keys())
             if self._rec_method(it, "__iter__") is not None:
                 it = list(self.call_funcval(self._rec_method(it, "__iter__"), [], {}))
+            if isinstance(it, Opaque):
+                raise Undecidable(f"iteration over {it!r}")
             for x in list(it):
                 self.assign(g.target, x)
                 if all(self.truth(self.expr(c), c) for c in g.ifs):
@@ -566,7 +616,7 @@ class Folder:
         if isinstance(e, ast.DictComp):
             return dict(results)
         if isinstance(e, ast.SetComp):
-            return frozenset(results)
+            return set(results)
         return results
 
     _DUNDER = {ast.Add: ("__add__", "__radd__"), ast.Sub: ("__sub__", "__rsub__"), ast.Mult: ("__mul__", "__rmul__"), ast.Div: ("__truediv__", "__rtruediv__"),
@@ -616,6 +666,10 @@ class Folder:
                 return a | b
             if isinstance(op, ast.BitAnd):
                 return a & b
+            if isinstance(op, ast.BitXor):
+                return a ^ b
+            if isinstance(op, (ast.LShift, ast.RShift)) and all(isinstance(x, int) and not isinstance(x, bool) for x in (a, b)) and 0 <= b <= 4096:
+                return a << b if isinstance(op, ast.LShift) else a >> b
         except TypeError:
             pass
         raise Undecidable(f"binop {norm(node)} on {a!r}, {b!r}")
@@ -768,6 +822,17 @@ class Folder:
                     return list(self.call_funcval(self._rec_method(a, "__iter__"), [], {}))
                 return a
             args = [_conv(a) for a in args]
+        if fn == "map" and len(args) >= 2 and not kwargs:
+            f0 = args[0]
+            seqs = [list(a) if not isinstance(a, Opaque) else None for a in args[1:]]
+            if any(q is None for q in seqs):
+                raise Undecidable(f"map over {args[1:]!r}")
+            if isinstance(f0, Opaque) and f0.text in ("type:str", "type:int", "type:float", "type:bool", "type:tuple", "type:list"):
+                py = {"str": str, "int": int, "float": float, "bool": bool, "tuple": tuple, "list": list}[f0.text[5:]]
+                return [py(*xs) for xs in zip(*seqs)]
+            if isinstance(f0, FuncVal):
+                return [self.call_funcval(f0, list(xs), {}) for xs in zip(*seqs)]
+            raise Undecidable(f"map with {f0!r}")
         if fn in ("Counter", "collections.Counter"):
             import collections
             return collections.Counter(*args, **kwargs)
@@ -797,6 +862,20 @@ class Folder:
             if kwargs.get("dtype") == Opaque("type:int"):
                 return IntArray([1 if fn.endswith("ones") else 0] * args[0])
             return [1 if fn.endswith("ones") else 0] * args[0]         # a one-dimensional array of a literal length, as a list
+        if fn in ("np.ones", "np.zeros", "numpy.ones", "numpy.zeros") and len(args) == 1 and isinstance(args[0], tuple) and len(args[0]) >= 2 and set(kwargs) <= {"dtype"} and \
+                all(isinstance(d, int) and not isinstance(d, bool) and 0 <= d <= 4096 for d in args[0]):
+            # a matrix of literal extents: a concrete numpy array of the requested element type, so that numpy's own casting rules apply to what is stored in it
+            dt = kwargs.get("dtype")
+            names = {"complex64": _np.complex64, "complex128": _np.complex128, "complex": _np.complex128, "complex_": _np.complex128, "cdouble": _np.complex128,
+                     "float64": _np.float64, "float32": _np.float32, "float": _np.float64, "double": _np.float64, "float_": _np.float64,
+                     "int": _np.int64, "int64": _np.int64, "int32": _np.int32, "int8": _np.int8, "bool": _np.bool_}
+            if dt is None:
+                npdt = _np.float64
+            elif isinstance(dt, Opaque) and dt.text.split(":")[-1].split(".")[-1] in names:
+                npdt = names[dt.text.split(":")[-1].split(".")[-1]]
+            else:
+                raise Undecidable(f"{fn} with dtype {dt!r}")
+            return (_np.ones if fn.endswith("ones") else _np.zeros)(args[0], dtype=npdt)
         if fn in ("np.linspace", "numpy.linspace") and len(args) == 3 and all(isinstance(a, int) and not isinstance(a, bool) for a in args) and \
                 set(kwargs) == {"dtype"} and kwargs["dtype"] == Opaque("type:int") and args[2] >= 1:
             lo, hi, cnt = args
@@ -807,6 +886,9 @@ class Folder:
             return IntArray([lo + i * (hi - lo) // (cnt - 1) for i in range(cnt)])
         if fn in ("np.arange", "numpy.arange") and 1 <= len(args) <= 3 and all(isinstance(a, int) and not isinstance(a, bool) for a in args) and set(kwargs) <= {"dtype"}:
             return IntArray(range(*args))
+        if fn in ("np.hstack", "np.vstack", "np.column_stack", "numpy.hstack", "numpy.vstack", "numpy.column_stack") and len(args) == 1 and not kwargs and \
+                isinstance(args[0], (list, tuple)) and args[0] and all(isinstance(x, _np.ndarray) for x in args[0]):
+            return getattr(_np, fn.split(".")[1])(list(args[0]))           # concrete arrays supplied by the checker: the numpy definition itself
         if fn in ("np.concatenate", "numpy.concatenate") and len(args) == 1 and isinstance(args[0], (list, tuple)) and not kwargs:
             if all(isinstance(x, IntArray) for x in args[0]):
                 return IntArray([y for x in args[0] for y in x.v])
@@ -823,7 +905,8 @@ class Folder:
             import math as _m
             v = _m.comb(args[0], args[1]) if args[0] >= 0 and args[1] >= 0 else 0
             return v if kwargs.get("exact") or fn == "math.comb" else float(v)
-        if fn in ("itertools.combinations", "itertools.product", "itertools.permutations", "combinations", "product", "permutations") and \
+        if fn in ("itertools.combinations", "itertools.product", "itertools.permutations", "combinations", "product", "permutations",
+                  "itertools.combinations_with_replacement", "combinations_with_replacement") and \
                 all(isinstance(a, (list, tuple, range, str, frozenset, set, IntArray)) or isinstance(a, int) for a in args) and set(kwargs) <= {"repeat"}:
             import itertools as _it
             f = getattr(_it, fn.split(".")[-1])
@@ -898,6 +981,13 @@ class Folder:
                 return items[pick]
             except (TypeError, ValueError) as ex:
                 raise Undecidable(f"{fn} with key: {ex}")
+        if fn in ("itertools.chain.from_iterable", "chain.from_iterable") and len(args) == 1 and not kwargs and isinstance(args[0], (list, tuple)) and \
+                all(isinstance(x, (list, tuple)) for x in args[0]):
+            return [y for x in args[0] for y in x]
+        if fn in ("itertools.chain", "chain") and not kwargs and all(isinstance(x, (list, tuple, range)) for x in args):
+            return [y for x in args for y in x]
+        if fn == "bool" and len(args) <= 1 and not kwargs:
+            return self.truth(args[0], e) if args else False
         if fn in ("dict", "list", "set", "tuple", "sorted", "len", "str", "frozenset", "reversed", "range", "abs", "int", "float", "max", "min", "sum", "zip", "enumerate") and not kwargs:
             if fn in ("int", "float") and len(args) == 1 and isinstance(args[0], str):
                 try:
@@ -905,7 +995,7 @@ class Folder:
                 except ValueError:
                     raise Raised("ValueError", e)
             try:
-                f = {"dict": dict, "list": list, "set": frozenset, "tuple": tuple, "sorted": lambda x: sorted(x, key=repr),
+                f = {"dict": dict, "list": list, "set": set, "tuple": tuple, "sorted": _natural_sorted,
                      "len": len, "str": str, "frozenset": frozenset, "reversed": lambda x: list(reversed(x)),
                      "range": range, "abs": abs, "int": int, "float": float, "max": max, "min": min, "sum": sum,
                      "zip": lambda *a: list(zip(*a)), "enumerate": lambda x: list(enumerate(x))}[fn]
@@ -1002,8 +1092,8 @@ class Folder:
                 return self.call_funcval(FuncVal(cvo.methods[m], closure=None, bound_self=obj, home=(cvo.method_home or {}).get(m, cvo.home)), args, kwargs)
             if isinstance(obj, (dict,)) and m in ("update", "pop", "setdefault", "clear"):
                 return getattr(obj, m)(*args, **kwargs)
-            if isinstance(obj, (set, frozenset)) and m in ("union", "intersection", "difference", "issubset") and not kwargs:
-                return frozenset(getattr(frozenset(obj), m)(*args))
+            if isinstance(obj, (set, frozenset)) and m in ("union", "intersection", "difference", "symmetric_difference", "issubset", "issuperset", "isdisjoint", "copy") and not kwargs:
+                return getattr(obj, m)(*args)                 # new set of the receiver's own kind (or a boolean), as in Python
             if isinstance(obj, set) and m in ("add", "update", "discard", "remove", "pop") and not kwargs:
                 try:
                     return getattr(obj, m)(*args)          # a mutable set handed in by the checker
